@@ -317,8 +317,6 @@ def ceval_type(t, r, ffi, lines, expect, ctxs, fails, tags, samples):
         oldcap = buf.capacity
         buf.allocate(buf.capacity + 16)
         base2 = int(ffi.cast("size_t", ffi.from_buffer(buf.buffer)))
-        mark = (before[int(obj._offset)] + 1) % 128
-        buf.update_from_buffer(int(obj._offset), bytes([mark]))          # written into the current storage only
         for fn, kw, rel, c2 in recheck:
             try:
                 res = getattr(kctx.kernels, fn)(obj=obj, **kw)
@@ -331,7 +329,6 @@ def ceval_type(t, r, ffi, lines, expect, ctxs, fails, tags, samples):
             if caddr2 != rel:
                 fails.append(common.Failure("oracle", "C02:getp-address:after-growth", f"{fn}{kw} on {s[:200]}: after the buffer grew from {oldcap} to {buf.capacity} bytes the accessor returns an address {caddr2} bytes from the current storage, the Python accessor reports {rel} (stale storage?)", c2))
                 break
-        buf.update_from_buffer(int(obj._offset), before[int(obj._offset): int(obj._offset) + 1])
     if n and len(samples) < 6:
         samples.append(f"ceval {s[:160]} value {repr(d)[:80]}: {n} accessor calls")
     return n
@@ -396,6 +393,12 @@ def run_c07(tier, seed):
                         if kind != "set":
                             lines.append(f"acc {fn} {o0} " + " ".join(str(int(v)) for v in idx))
                             expect.append(("acc", c2)); ctxs.append(c2)
+                            if kind == "member":
+                                try:
+                                    if py_view(cur, leaf, cache).get("member") is None:
+                                        continue        # the member of a NULL union reference is not an address: not called under the sanitizers
+                                except Exception:
+                                    continue
                             calls.append((fn, kind, idx, leaf))
                             continue
                         # --- setter: whole-buffer diff and python re-read
